@@ -20,7 +20,9 @@ AllKeys == { K("nil", NilV), K("true", TrueV), K("false", FalseV), K("0", IntV(0
              K("{ }", MapV(<<>>)), K("1 \"t\" \"k\" insert-tag", IntV(1)) }
 OrderedKeys == { k \in AllKeys : k.c.ty = "int" } \cup { K("2", IntV(2)), K("7", IntV(7)), K("-5", IntV(-5)) }
 StrKeys == { K("\"\"", StrV("")), K("\"a\"", StrV("a")), K("\"1\"", StrV("1")), K("\"b\"", StrV("b")), K("\"ab\"", StrV("ab")) }
-Keys == IF KeySet = "all" THEN AllKeys ELSE IF KeySet = "int" THEN OrderedKeys ELSE StrKeys
+\* real keys, all mutually comparable; the two zeros are equal (`equal?`, IEEE) and therefore ONE key
+RealKeys == { K("1.5", RealV("1.5")), K("1.0", RealV("1.0")), K("0.0", RealV("0.0")), K("-0.0", RealV("0.0")), K("-2.5", RealV("-2.5")) }
+Keys == IF KeySet = "all" THEN AllKeys ELSE IF KeySet = "int" THEN OrderedKeys ELSE IF KeySet = "real" THEN RealKeys ELSE StrKeys
 
 VARIABLES m, stack, path, vers
 vars == <<m, stack, path, vers>>
@@ -63,11 +65,24 @@ SeqCases ==
   \cup { [w |-> "push", coll |-> VecTxt[n], args |-> <<>>, exp |-> [k |-> "val", v |-> VecV(Append(Vecs[n], IntV(9)))]] : n \in 1..4 }
   \cup { [w |-> "unboxcollect", coll |-> VecTxt[n], args |-> <<>>, exp |-> [k |-> "val", v |-> VecV(Vecs[n])]] : n \in 1..4 }
   \cup { [w |-> "sort", coll |-> "[ 3 1 2 1 -5 ]", args |-> <<>>, exp |-> [k |-> "val", v |-> VecV(SortInts(<<IntV(3), IntV(1), IntV(2), IntV(1), IntV(-5)>>))]] }
-Strs == << "", "a", "abc" >>
-StrSeq(k) == CASE k = 1 -> <<>> [] k = 2 -> <<"a">> [] k = 3 -> <<"a", "b", "c">>
+\* @U2@ / @U4@ stand for a 2-byte and a 4-byte character (the specification sources stay ASCII; the harness substitutes)
+\* join / concat: the pieces in order, the separator between every two neighbours (also around empty pieces)
+RECURSIVE JoinM(_, _)
+JoinM(ps, sep) == IF ps = <<>> THEN <<>> ELSE IF Len(ps) = 1 THEN <<ps[1]>> ELSE <<ps[1], sep>> \o JoinM(Tail(ps), sep)
+Pieces == << <<>>, <<"a">>, <<"", "a", "b">>, <<"a", "", "b">>, <<"a", "b", "">>, <<"", "">>, <<"", "", "a">>, <<"@U2@", "", "b">> >>
+RECURSIVE PiecesTxt(_)
+PiecesTxt(ps) == IF ps = <<>> THEN "" ELSE "\"" \o Head(ps) \o "\" " \o PiecesTxt(Tail(ps))
+JoinCases ==
+  { [w |-> "join", coll |-> "[ " \o PiecesTxt(Pieces[n]) \o "]", args |-> <<>>, sep |-> sp,
+     exp |-> [k |-> "val", chars |-> JoinM(Pieces[n], sp)]] : n \in 1..Len(Pieces), sp \in {",", "", "--"} }
+  \cup { [w |-> "concat", coll |-> "[ " \o PiecesTxt(Pieces[n]) \o "]", args |-> <<>>, sep |-> "",
+          exp |-> [k |-> "val", chars |-> JoinM(Pieces[n], "")]] : n \in 1..Len(Pieces) }
+Strs == << "", "a", "abc", "@U2@BCD", "a@U4@@U2@" >>
+StrSeq(k) == CASE k = 1 -> <<>> [] k = 2 -> <<"a">> [] k = 3 -> <<"a", "b", "c">> [] k = 4 -> <<"@U2@", "B", "C", "D">> [] k = 5 -> <<"a", "@U4@", "@U2@">>
 StrCases ==
   { [w |-> "sslice", coll |-> Strs[n], args |-> <<i, j>>,
-     exp |-> [k |-> IF i \in {HUGE, -HUGE} \/ j \in {HUGE, -HUGE} THEN "valorerr" ELSE "val", chars |-> Slice(StrSeq(n), i, j)]] : n \in 1..3, i \in Idx, j \in Idx }
-  \cup { [w |-> "slength", coll |-> Strs[n], args |-> <<>>, exp |-> [k |-> "val", v |-> IntV(Len(StrSeq(n)))]] : n \in 1..3 }
+     exp |-> [k |-> IF i \in {HUGE, -HUGE} \/ j \in {HUGE, -HUGE} THEN "valorerr" ELSE "val", chars |-> Slice(StrSeq(n), i, j)]] : n \in 1..5, i \in Idx, j \in Idx }
+  \cup { [w |-> "slength", coll |-> Strs[n], args |-> <<>>, exp |-> [k |-> "val", v |-> IntV(Len(StrSeq(n)))]] : n \in 1..5 }
+  \cup JoinCases
 ExportSeq == Mode = "seq" => \A c \in SeqCases \cup StrCases : PrintT(<<"REPLAY", ToJson([mode |-> "seq"] @@ c)>>)
 =============================================================================
